@@ -170,6 +170,30 @@ pub fn eval_client(en: &mut Entries, rec: &Rec, real_ns: i128, mono_ns: i128) ->
 
 /// Entry point 3: the C library through the driver.
 pub fn eval_c(en: &mut Entries, rec: &Rec, real_ns: i128, mono_ns: i128) -> Result<NowOut, String> {
+    // The driver keeps one clockbound_ctx for the whole run, as a long-lived client does. So that a
+    // case does not depend on the cases before it, the context first makes a call that fails
+    // (malformed drift rate) and then, in half of the cases, one that succeeds: the call under test
+    // follows a failure or a success, as the case decides.
+    {
+        let after_failure = (rec.bound ^ rec.as_of_ns ^ rec.drift as i64) & 1 == 1;
+        for drift in if after_failure { vec![1_000_000_000u32] } else { vec![1_000_000_000u32, 0] } {
+            let prime = Rec {
+                as_of_s: 1000,
+                as_of_ns: 0,
+                void_s: 2000,
+                void_ns: 0,
+                bound: 1,
+                drift,
+                reserved: 0,
+                status: 1,
+            };
+            en.gen_c = next_gen(en.gen_c);
+            en.file_c.write_all_at(&segment_bytes(&Hdr::valid(en.gen_c), &prime), 0).map_err(|e| e.to_string())?;
+            let d = en.cdrv.as_mut().ok_or("no C driver")?;
+            d.set_time(1_700_000_000_000_000_000, 1001 * crate::clock::NS);
+            let _ = d.now();
+        }
+    }
     en.gen_c = next_gen(en.gen_c);
     let bytes = segment_bytes(&Hdr::valid(en.gen_c), rec);
     en.file_c.write_all_at(&bytes, 0).map_err(|e| e.to_string())?;
@@ -872,7 +896,7 @@ impl Property for C14 {
     type Case = FailCase;
     const ID: &'static str = "C14";
     fn rule() -> String {
-        "cases = record with tv_sec of as_of/void_after in +-2^31 (edges +-2^31, 0, -1), nsec in [0,1e9), bound in [0,2^60), drift over all of u32 (edges 999999998..1000000001, u32::MAX), realtime in +-2^31 s, and as_of - mono drawn from: +-10 ms at ns resolution, +-3000 ns, the exact edges 998..1002 ns, around 1 ms, normal ages up to 2^32 s, breaches up to 2^32 s. Oracle: error/ok class from the C14 statement with the blur constant b located by bisection per run (required 1 ns <= b <= 10 ms, same for all cases), half-width/status as C05/C06, exact error kind/errno/detail on all three entry points; every call runs under catch_unwind, half the workers with integer-overflow checks compiled in. Non-trivial: |as_of-mono-b| <= 2 ns, or a timestamp within 2 s of +-2^31, or bound >= 2^59, or drift within 2 of 1e9.".into()
+        "cases = record with tv_sec of as_of/void_after in +-2^31 (edges +-2^31, 0, -1), nsec in [0,1e9), bound in [0,2^60), drift over all of u32 (edges 999999998..1000000001, u32::MAX), realtime in +-2^31 s, and as_of - mono drawn from: +-10 ms at ns resolution, +-3000 ns, the exact edges 998..1002 ns, around 1 ms, normal ages up to 2^32 s, breaches up to 2^32 s; through the C library every call is made on one long-lived clockbound_ctx whose previous call failed or succeeded (decided by the case). Oracle: error/ok class from the C14 statement with the blur constant b located by bisection per run (required 1 ns <= b <= 10 ms, same for all cases), half-width/status as C05/C06, exact error kind/errno/detail on all three entry points; every call runs under catch_unwind, half the workers with integer-overflow checks compiled in. Non-trivial: |as_of-mono-b| <= 2 ns, or a timestamp within 2 s of +-2^31, or bound >= 2^59, or drift within 2 of 1e9.".into()
     }
     fn assumptions() -> Vec<String> {
         vec!["the blur is a single constant between 1 ns and 10 ms (the property names no value)".into()]
